@@ -28,7 +28,7 @@ const c04L = 1 << 16
 
 func init() {
 	core.Register(c04{base{id: "C04", level: "fault_enumeration", quickB: 16, thoroughB: 32,
-		rule:        "two parts, both in isolated child processes (a panic anywhere kills the child = crash witness). (1) fault enumeration, exhaustive: for each canonical session (auth ok/rejected, simple, multi-statement, extended batch, error batch, text and binary COPY ok/aborted, oversized message, Terminate, CancelRequest alone / followed by traffic, GSSENCRequest, COPY fields and Bind parameters of array / multirange / record type whose header announces millions of elements, generated C15 sessions; 17 in quick, 40 in thorough) the fault-free run's number of transport Read calls, Write calls and inbound bytes is measured, then the session is re-run with the transport failing at EVERY k-th Read (error and EOF), EVERY k-th Write (error and short write) and EVERY inbound byte offset. (1b) CancelRequest / SSLRequest / GSSENCRequest packets carrying 0-12 bytes behind the request code, as first packet, after a refused SSLRequest and inside an upgraded TLS connection. (1c) every type of a connection's type map is handed binary and text values whose leading words announce millions of elements, through NewScanner and Parameter.Scan. (2) input exploration: structure-aware mutation of valid streams (truncate at any offset, set any length/count field to 0,1,max-1,max,2^31,2^32-1, flip type bytes, duplicate/reorder/delete messages, splice random bytes, well-framed Bind messages whose format-code, value and result-format counts are mutually independent) on fresh connections (incl. SSLRequest and password phases), after a valid startup incl. COPY mode, and inside upgraded TLS connections; handlers call ParseParameters on every query, Parameter.Scan on every parameter and the binary COPY row reader. Oracles: process survives; after EOF/transport failure the server's own Close is observed and at most 64 further transport calls are made (spin detector); no (*Server).serve goroutine is left at batch end; a fresh probe connection is served after every 200 cases; allocation sanitizer: no object allocated by library code exceeds 8L+4MiB; no fabricated data: query texts reaching the parser are, in order, a subsequence of the texts carried by well-framed Query/Parse frames of the input, parameter values and COPY chunks are byte strings of the input. Non-trivial = fault at a position the fault-free run reaches, or a mutated stream; distinct = (session, fault kind, position) / mutation shape.",
+		rule:        "two parts, both in isolated child processes (a panic anywhere kills the child = crash witness). (1) fault enumeration, exhaustive: for each canonical session (auth ok/rejected, simple, multi-statement, extended batch, error batch, text and binary COPY ok/aborted, oversized message, Terminate, CancelRequest alone / followed by traffic, GSSENCRequest, COPY fields and Bind parameters of array / multirange / record type whose header announces millions of elements, generated C15 sessions; 17 in quick, 40 in thorough) the fault-free run's number of transport Read calls, Write calls and inbound bytes is measured, then the session is re-run with the transport failing at EVERY k-th Read (error and EOF), EVERY k-th Write (error and short write) and EVERY inbound byte offset. (1b) CancelRequest / SSLRequest / GSSENCRequest packets carrying 0-12 bytes behind the request code, as first packet, after a refused SSLRequest and inside an upgraded TLS connection. (1c) every type of a connection's type map is handed binary and text values whose leading words announce millions of elements, through NewScanner and Parameter.Scan. (1d) stray CopyData messages whose payload is a train of complete Query messages aligned to the usual buffer sizes (nothing inside a body may reach the parser). (2) input exploration: structure-aware mutation of valid streams (truncate at any offset, set any length/count field to 0,1,max-1,max,2^31,2^32-1, flip type bytes, duplicate/reorder/delete messages, splice random bytes, well-framed Bind messages whose format-code, value and result-format counts are mutually independent) on fresh connections (incl. SSLRequest and password phases), after a valid startup incl. COPY mode, and inside upgraded TLS connections; handlers call ParseParameters on every query, Parameter.Scan on every parameter and the binary COPY row reader. Oracles: process survives; after EOF/transport failure the server's own Close is observed and at most 64 further transport calls are made (spin detector); no (*Server).serve goroutine is left at batch end; a fresh probe connection is served after every 200 cases; allocation sanitizer: no object allocated by library code exceeds 8L+4MiB; no fabricated data: query texts reaching the parser are, in order, a subsequence of the texts carried by well-framed Query/Parse frames of the input, parameter values and COPY chunks are byte strings of the input. Non-trivial = fault at a position the fault-free run reaches, or a mutated stream; distinct = (session, fault kind, position) / mutation shape.",
 		need:        []string{"hostile_values_decoded", "fault_runs", "read_faults", "write_faults", "byte_offset_faults", "mutated_inputs", "server_close_observed", "probe_connections_served", "leak_checks", "alloc_profile_checks", "fabrication_checks"},
 		assumptions: append([]string{"allocation bound is c*L+K (8L+4MiB): the library allocates in 4 KiB granules and its 16-bit count fields cap tables at ~2.6 MiB regardless of L; a malformed body may be answered by an ErrorResponse or by closing the connection; after a frame with a declared length below 4 the input is not judged for fabrication"}, commonAssumptions...)}})
 }
@@ -392,6 +392,44 @@ func (ch c04) Run(c *core.Ctx) {
 		}
 		c.Eval(fmt.Sprintf("hostile values for %d registered types", ntypes), true)
 	}
+	// ---- bodies full of message look-alikes: stray CopyData messages (ignored outside COPY) whose payload
+	// is a train of complete 16-byte Query messages, padded so that a message starts exactly D bytes into
+	// the stream for the usual buffer sizes D: a server that loses or skips D bytes anywhere (a buffer
+	// swapped, a block rewound) resumes on a look-alike and hands its text to the parser ----
+	if c.Batch == 2%nb && c.Begin(860000000) {
+		block := func(n int) []byte { return pg.Query(fmt.Sprintf("smuggle-%02d", n%100)) } // 1+4+11 = 16 bytes
+		for _, D := range []int{512, 1024, 2048, 4096, 8192, 10000, 16384, 32768, 65536, 4096 + 9, 8192 + 13} {
+			for _, auth := range []bool{false, true} {
+				stream := pg.Startup([][2]string{{"user", "u"}, {"database", "d"}})
+				if auth {
+					stream = append(stream, pg.Password("pw")...)
+				}
+				for len(stream) < D+40000 {
+					head := len(stream) + 5
+					pad := ((D-head)%16 + 16) % 16
+					body := bytes.Repeat([]byte{0}, pad)
+					for n := 0; len(body)+16 <= 60000; n++ {
+						body = append(body, block(n)...)
+					}
+					stream = append(stream, pg.CopyData(body)...)
+				}
+				stream = append(append(stream, pg.Query("select 1")...), pg.Terminate()...)
+				conn := tr.NewConn(c04sess())
+				conn.NoLog = true
+				envs.pick(auth).L.DialConn(conn)
+				conn.Send(stream)
+				conn.Quiesce()
+				conn.CloseWrite()
+				if !conn.WaitClosed() {
+					c.Inconclusive("connection did not close (look-alike bodies)")
+					c.Finish()
+				}
+				ch.fabrication(c, stream, conn, map[string]any{"look_alike_alignment": D, "auth": auth})
+				c.Count("look_alike_bodies", 1)
+				c.Eval(fmt.Sprintf("look-alike bodies D=%d auth=%v", D, auth), true)
+			}
+		}
+	}
 	// ---- part 2: input exploration ----
 	for i := c.Batch; i < nmut; i += nb {
 		if !c.Begin(900000000+i) || c.NViol() >= 10 {
@@ -608,8 +646,10 @@ func (ch c04) fabrication(c *core.Ctx, stream []byte, conn *tr.Conn, cs any) {
 	}
 	startupOK := false
 	if l, ok := untyped(); ok {
-		if l == 8 && binary.BigEndian.Uint32(stream[off+4:]) == pg.VerSSL {
-			off += 8
+		if code := binary.BigEndian.Uint32(stream[off+4:]); code == pg.VerSSL || code == pg.VerGSSENC {
+			// an SSLRequest / GSSENCRequest code (whatever the packet's declared length): answered with N,
+			// the start-up packet follows
+			off += l
 			if l2, ok2 := untyped(); ok2 {
 				startupOK = true
 				off += l2
